@@ -1345,6 +1345,19 @@ func runBlockCase(o *out.Out, r *gen.Rand, c int) {
 				sigs[i] = types.CommitSig{BlockIDFlag: types.BlockIDFlagNil, ValidatorAddress: v.ValidatorAddress, Timestamp: ts, Signature: v.Signature}
 			}
 		}
+		if r.Chance(1, 14) {
+			// a slot renamed to another address (the signature still verifies for the slot's validator):
+			// Commit.Hash and so the block hash follow, VerifyCommit must refuse
+			i := r.Intn(nv)
+			if sigs[i].BlockIDFlag != types.BlockIDFlagAbsent {
+				if nv > 1 && r.Bool() {
+					sigs[i].ValidatorAddress = vset.Validators[(i+1)%nv].Address
+				} else {
+					sigs[i].ValidatorAddress = common.BytesToAddress(r.Bytes(20))
+				}
+				o.Count("block.commit.renamed-slot")
+			}
+		}
 		lastCommit = types.NewCommit(height-1, round, lastBID, sigs)
 		commitKind = "signed"
 	} else {
@@ -1496,6 +1509,7 @@ func runBlockCase(o *out.Out, r *gen.Rand, c int) {
 			}
 		}
 	}
+	headerBoundaries(o, r, h)
 	if lastCommit != nil {
 		cc := types.NewCommit(lastCommit.Height, lastCommit.Round, lastCommit.BlockID, lastCommit.Signatures) // fresh: no cached hash
 		o.Op(commitLines(cc), fmt.Sprintf("c %s %s", hx(cc.Hash().Bytes()), vbClass(cc.ValidateBasic())))
